@@ -6,12 +6,12 @@
   * every C `short` local / struct member is an `Int` that went through `s16` (= `wrapS 16`: gcc's conversion of an
     `int` to `short`) at the point of the C assignment; `int` arithmetic is exact: for a state whose members are in
     `short` range (they always are, being `s16` results) the largest `int` intermediate is `dif * al` < 2^30 in
-    `stepSize`, so no `int` ever overflows.  `yl` is a C `long` (64 bit): exact; `yl_range` (SfProps/C05G72x.lean)
+    `stepSize`, so no `int` ever overflows.  `yl` is a C `long` (64 bit): exact; `g72x_state_inv` (SfProps/C05G72x.lean)
     proves 34816 ≤ yl ≤ 327680 for every reachable state.
   * `x >> k` on a signed value is the arithmetic shift gcc emits (`shr`, floor division), `x << k` of a negative
     value is the two's-complement shift gcc emits (`shl`, multiplication).  A shift count outside [0, 31] is undefined
-    in C; `shl`/`shr` clamp a negative count to 0, and `Safe` below lists every count and table index together with
-    the range the C needs: `safe_of_inv` proves them for every reachable state.
+    in C; `shl`/`shr` clamp a negative count to 0, and `StepSafe` (SfProps/C05G72x.lean) lists the state-dependent counts and table indices with
+    the range the C needs: `g72x_encode_safe` / `g72x_decode_safe` prove them for every reachable state.
   * `x & (2^k − 1)` on a two's-complement `int` is `x % 2^k` (Euclidean); `(a ^ b) < 0` is "signs differ".
   * `pk [2]` and `td` only ever hold 0 or 1: they are `Bool`s.
   * `quan (val, table, size)` — "first index with val < table [i], else size" — is `quan val table`.
@@ -243,7 +243,7 @@ def rateOfBits (bits : Nat) : Option Rate :=
   if bits = 2 then some g723_16 else if bits = 3 then some g723_24 else if bits = 4 then some g721
   else if bits = 5 then some g723_40 else none
 
-/-- table look-up `tab [i]` (an index outside the table gives 0 here; `Safe` states the range) -/
+/-- table look-up `tab [i]` (an index outside the table gives 0 here; `StepSafe.idx` states the range) -/
 def tabAt (tab : List Int) (i : Int) : Int := tab.getD i.toNat 0
 
 /-- the part shared by encoder and decoder after the code `i` is known: reconstruct, `sr`, `dqsez`, `update`.
